@@ -594,7 +594,15 @@ def check_bord(ctx, rng, pending):
 # ---------------------------------------------------------------------------
 # OffsetMapping
 # ---------------------------------------------------------------------------
-def check_omap(ctx, rng, pending):
+OMAP_FIXED = [
+    # a per-element dictionary the caller keeps stays the mapping's dictionary after it ran empty and was filled again
+    [["setO", 0, 0, 1], ["view", 0], ["delO", 0, 0], ["setO", 0, 1, 2], ["viewSet", 0, 2, 3], ["getE", 0], ["keys"]],
+    [["setE", 1, []], ["view", 1], ["setO", 1, 1, 2], ["viewSet", 1, 2, 3], ["getE", 1], ["keys"], ["len"]],
+    [["setO", 2, 0, 1], ["view", 2], ["popO", 2, 0], ["setdefaultO", 2, 1, 4], ["viewSet", 2, 0, 3], ["getE", 2], ["len"]],
+]
+
+
+def check_omap(ctx, rng, pending, fixed=None):
     import gtirb
 
     from gtirb_rewriting._adt import OffsetMapping
@@ -602,12 +610,14 @@ def check_omap(ctx, rng, pending):
     E = 3
     elems = [gtirb.CodeBlock() for _ in range(E)]
     eidx = {id(e): i for i, e in enumerate(elems)}
-    ops = []
-    for _ in range(rng.randint(1, 16)):
+    ops = [list(o) for o in fixed] if fixed is not None else []
+    for _ in range(rng.randint(1, 16) if fixed is None else 0):
         e, d, v = rng.randrange(E), rng.randrange(3), rng.randrange(5)
-        k = rng.choice(["setO", "setO", "getO", "getE", "setE", "delO", "delE", "containsO", "containsE", "len", "bool", "keys", "nodeKeys", "subSet", "popO", "setdefaultO"])
-        if k in ("setO", "subSet", "setdefaultO"):
+        k = rng.choice(["setO", "setO", "getO", "getE", "setE", "delO", "delE", "containsO", "containsE", "len", "bool", "keys", "nodeKeys", "subSet", "popO", "setdefaultO", "view", "viewSet", "viewSet"])
+        if k in ("setO", "subSet", "setdefaultO", "viewSet"):
             ops.append([k, e, d, v])
+        elif k == "view":
+            ops.append([k, e])
         elif k in ("getO", "delO", "containsO", "popO"):
             ops.append([k, e, d])
         elif k in ("getE", "delE", "containsE"):
@@ -621,6 +631,7 @@ def check_omap(ctx, rng, pending):
     ctx.count("omap:histories")
     m = OffsetMapping()
     spec = {}  # dict of dicts, the specification
+    views, sviews = {}, {}     # per-element dictionaries obtained earlier and kept by the caller
     rows = []
     for op in ops:
         k = op[0]
@@ -658,6 +669,12 @@ def check_omap(ctx, rng, pending):
                 m[elems[op[1]]][op[2]] = op[3]; r = "ok"
             elif k == "popO":
                 r = m.pop(gtirb.Offset(elems[op[1]], op[2]))
+            elif k == "view":
+                views[op[1]] = m[elems[op[1]]]; r = "ok"
+            elif k == "viewSet":
+                if op[1] in views:
+                    views[op[1]][op[2]] = op[3]
+                r = "ok"
             else:
                 r = m.setdefault(gtirb.Offset(elems[op[1]], op[2]), op[3])
         except KeyError:
@@ -694,6 +711,12 @@ def check_omap(ctx, rng, pending):
                 spec[op[1]][op[2]] = op[3]; sr = "ok"
             elif k == "popO":
                 sr = spec[op[1]].pop(op[2])
+            elif k == "view":
+                sviews[op[1]] = spec[op[1]]; sr = "ok"
+            elif k == "viewSet":
+                if op[1] in sviews:
+                    sviews[op[1]][op[2]] = op[3]
+                sr = "ok"
             else:
                 sr = spec.setdefault(op[1], {}).setdefault(op[2], op[3])
         except KeyError:
@@ -702,7 +725,10 @@ def check_omap(ctx, rng, pending):
         if r != sr:
             ctx.violation("C20:omap:" + k, "%s gives %r, a dictionary of dictionaries gives %r" % (op, r, sr), case)
             return
-    pending.append(({"op": "adt_omap", "ops": ops}, ("omap", case, rows, None)))
+    if any(o[0] in ("view", "viewSet") for o in ops):
+        ctx.count("omap:histories-with-kept-views")      # judged against the dict of dicts only (the Lean model has no aliasing)
+    else:
+        pending.append(({"op": "adt_omap", "ops": ops}, ("omap", case, rows, None)))
 
 
 def check_idset(ctx, rng, pending):
@@ -807,6 +833,8 @@ def run(ctx):
         if len(pending) >= 2000:
             flush(ctx, pending)
     flush(ctx, pending)
+    for f in OMAP_FIXED:
+        check_omap(ctx, rng, pending, fixed=f)
     for _ in range(ctx.budget(600, 20000)):
         check_retcache(ctx, rng, pending)
         check_retctx(ctx, rng, pending)
